@@ -504,3 +504,158 @@ def r19(text, ctx):
             n += 1
             break
     return sig + '\x00' + body, n
+
+
+_R5_CACHE = {}
+
+
+def r5_world_methods(ctx):
+    """names of methods that (transitively) call into `self.fs.fs` in the files listed by rulearg `R5 files ...`"""
+    import os
+    from extract import SourceFile
+    files = []
+    for a in ctx.rule_args.get('R5', []):
+        if a.startswith('files '):
+            files += a.split()[1:]
+    key = (ctx.repo, tuple(files), tuple(sorted(a for a in ctx.rule_args.get('R5', []) if a.startswith('pure '))))
+    if key in _R5_CACHE:
+        return _R5_CACHE[key]
+    fns = {}
+    for f in files:
+        sf = SourceFile(os.path.join(ctx.repo, f))
+
+        def walk(items):
+            for it in items:
+                if it.kind == 'fn':
+                    fns[it.name] = fns.get(it.name, '') + (it.body or '')
+                walk(it.children)
+        walk(sf.items)
+    pure = set()
+    for a in ctx.rule_args.get('R5', []):
+        if a.startswith('pure '):
+            pure.update(a.split()[1:])
+    direct = set(nm for nm, body in fns.items() if nm not in pure and re.search(r'\bself\s*\.\s*fs\s*\.\s*fs\s*\.', body))
+    changed = True
+    while changed:
+        changed = False
+        for nm, body in fns.items():
+            if nm in direct or nm in pure:
+                continue
+            for d in direct:
+                if re.search(r'\.\s*%s\s*\(' % re.escape(d), body):
+                    direct.add(nm)
+                    changed = True
+                    break
+    _R5_CACHE[key] = direct
+    return direct
+
+
+@rule('R10', '`RECV.map(|p| E).unwrap_or(D)` where E calls a filesystem method -> `match RECV { Ok(p) => E, Err(_) => D }` (definition of the combinators; a closure cannot take `world`)')
+def r10(text, ctx):
+    if '\x00' not in text:
+        return text, 0
+    sig, body = text.split('\x00')
+    methods = r5_world_methods(ctx)
+    n = 0
+    while True:
+        toks = lex(body)
+        hit = None
+        for i, t in enumerate(toks):
+            if t.kind == 'ident' and t.text == 'map' and toks[i - 1].text == '.' and toks[i + 1].text == '(' and toks[i + 2].text == '|':
+                close = match_close(toks, i + 1)
+                if not (toks[close + 1].text == '.' and toks[close + 2].text == 'unwrap_or' and toks[close + 3].text == '('):
+                    continue
+                inner = body[toks[i + 1].end:toks[close].start]
+                m = re.match(r'\s*\|\s*([A-Za-z_][A-Za-z0-9_]*)\s*\|\s*(.*)$', inner, re.S)
+                if not m:
+                    continue
+                if not any(re.search(r'\.\s*%s\s*\(' % re.escape(d), m.group(2)) for d in methods):
+                    continue
+                dclose = match_close(toks, close + 3)
+                # receiver: back to statement start
+                j = i - 1
+                depth = 0
+                while j > 0:
+                    x = toks[j - 1]
+                    if x.kind == 'punct' and x.text in (')', ']', '}'):
+                        depth += 1
+                    elif x.kind == 'punct' and x.text in ('(', '[', '{'):
+                        if depth == 0:
+                            break
+                        depth -= 1
+                    elif x.kind == 'punct' and x.text in (';', '=') and depth == 0:
+                        break
+                    elif x.kind == 'ident' and x.text == 'return' and depth == 0:
+                        break
+                    j -= 1
+                recv = body[toks[j].start:toks[i - 1].start].strip()
+                dflt = body[toks[close + 3].end:toks[dclose].start].strip()
+                hit = (toks[j].start, toks[dclose].end, 'match %s { Ok(%s) => %s, Err(_) => %s }' % (recv, m.group(1), m.group(2).strip(), dflt))
+                break
+        if not hit:
+            break
+        body = body[:hit[0]] + hit[2] + body[hit[1]:]
+        n += 1
+    return sig + '\x00' + body, n
+
+
+@rule('R5', 'world store-passing: methods that reach `self.fs.fs` get `world: &mut World`; `self.fs.fs.m(a)` -> `world.m(&self.fs, a)`; calls of such methods get `world` as first argument '
+            '(dynamic dispatch through Box<dyn FileSystem> is replaced by a call whose only known behaviour is the trait contract TC); rulearg `R5 files <src files>`')
+def r5(text, ctx):
+    if '\x00' not in text:
+        return text, 0
+    sig, body = text.split('\x00')
+    methods = r5_world_methods(ctx)
+    n = 0
+    m = re.search(r'\bfn\s+([A-Za-z0-9_]+)', sig)
+    name = m.group(1)
+    if name in methods:
+        sig2, c = re.subn(r'\(\s*(&(?:\s*mut)?\s*self|self)\s*(,?)', lambda mm: '(%s, world: &mut World%s' % (mm.group(1), ', ' if mm.group(2) else ''), sig, count=1)
+        if c == 0:
+            raise Undecided('R5: method %s has no self receiver' % name)
+        sig = sig2
+        n += 1
+    # direct trait calls
+    def direct(mm):
+        nonlocal n
+        n += 1
+        return 'world.%s(&self.fs%s' % (mm.group(1), '' if mm.group(2) == ')' else ', ')
+    body = re.sub(r'\bself\s*\.\s*fs\s*\.\s*fs\s*\.\s*([A-Za-z0-9_]+)\s*\(\s*(\)?)', lambda mm: ('world.%s(&self.fs)' % mm.group(1)) if mm.group(2) else direct(mm), body)
+    # calls of world methods on any receiver
+    toks = lex(body)
+    edits = []
+    for i, t in enumerate(toks):
+        if t.kind == 'ident' and t.text in methods and i > 0 and toks[i - 1].text == '.' and i + 1 < len(toks) and toks[i + 1].text == '(':
+            if i >= 2 and toks[i - 2].text == 'world':
+                continue
+            if toks[i + 2].text == ')':
+                edits.append((toks[i + 1].end, toks[i + 1].end, 'world'))
+            else:
+                edits.append((toks[i + 1].end, toks[i + 1].end, 'world, '))
+    n += len(edits)
+    body = toks_replace(body, edits)
+    return sig + '\x00' + body, n
+
+
+@rule('R27', '`X.as_ref()` where X is a parameter declared `impl AsRef<str>` -> `verif_as_ref_str(&X)` (external_body wrapper, assumed spec `r@ == as_ref_str_view(X)`)')
+def r27(text, ctx):
+    if '\x00' not in text:
+        return text, 0
+    sig, body = text.split('\x00')
+    names = re.findall(r'\b([A-Za-z_][A-Za-z0-9_]*)\s*:\s*impl\s+AsRef\s*<\s*str\s*>', sig)
+    n = 0
+    for nm in names:
+        body, c = re.subn(r'\b%s\s*\.\s*as_ref\s*\(\s*\)' % re.escape(nm), 'verif_as_ref_str(&%s)' % nm, body)
+        n += c
+    return sig + '\x00' + body, n
+
+
+@rule('R28', '`"lit".into()` at type Arc<str> -> `verif_str_into_arc("lit")` (external_body wrapper; `Arc<str>: From<&str>` cannot be given an assume_specification because of its lifetime binder)')
+def r28(text, ctx):
+    n = 0
+    def sub(m):
+        nonlocal n
+        n += 1
+        return 'verif_str_into_arc(%s)' % m.group(1)
+    out = re.sub(r'("(?:[^"\\]|\\.)*")\s*\.into\(\)', sub, text)
+    return out, n
